@@ -65,6 +65,20 @@ fn growth_fault_scenario(name: &str, max_batches: usize) -> Scenario {
 	s
 }
 
+/// the i-th commit of a history is the i-th transaction of the alphabet (all stage interleavings stay)
+fn ordered(mut s: Scenario) -> Scenario {
+	use crate::core::Ev;
+	let alpha = s.alphabet.clone();
+	s.filter = Some(std::sync::Arc::new(move |hist: &[Ev], ev: &Ev| match ev {
+		Ev::Commit(tx) => {
+			let n = hist.iter().filter(|e| matches!(e, Ev::Commit(_))).count();
+			alpha.get(n).map_or(false, |a| format!("{:?}", a) == format!("{:?}", tx))
+		},
+		_ => true,
+	}));
+	s
+}
+
 pub fn scenarios(tier: &str) -> Vec<Scenario> {
 	if tier == "thorough" {
 		vec![
@@ -74,7 +88,7 @@ pub fn scenarios(tier: &str) -> Vec<Scenario> {
 			growth_fault_scenario("faults/index-growth/one-pipeline-order", 12),
 		]
 	} else {
-		vec![fault_scenario("faults/hash/n2", small_family(), 2, 1, false), fault_scenario("faults/hash-overwrite/n3", overwrite_family(), 3, 0, false), fault_scenario("faults/hash+btree/n1", kv_family(), 1, 1, false), fault_scenario("faults/rc+tree/n1", rc_tree_family(), 1, 1, true), growth_fault_scenario("faults/index-growth/one-pipeline-order-2-batches", 2)]
+		vec![fault_scenario("faults/hash/n2", small_family(), 2, 1, false), ordered(fault_scenario("faults/hash-overwrite/n3-in-order", overwrite_family(), 3, 0, false)), fault_scenario("faults/hash+btree/n1", kv_family(), 1, 1, false), fault_scenario("faults/rc+tree/n1", rc_tree_family(), 1, 1, true), growth_fault_scenario("faults/index-growth/one-pipeline-order-2-batches", 2)]
 	}
 }
 
